@@ -684,6 +684,13 @@ class Recursive(compiler.Recursive, Type):
     def decode(self, element):
         return self._inner.decode(element)
 
+    def encode_of(self, data):
+        # Same list element form as a non-recursive reference.
+        return self._inner.encode_of(data)
+
+    def decode_of(self, element):
+        return self._inner.decode_of(element)
+
 
 class CompiledType(compiler.CompiledType):
 
